@@ -24,12 +24,12 @@ def run_case(drv, node, stack=(), text=None, flags=0, limit=3000, steps=3000000,
         merr = None
     except M.CompileError as e:
         stream, ctx, merr = None, None, e
-    except M.HardError as e:
-        return Outcome("inconclusive", "model hard error", text=text)
-    except M.Inconclusive as e:
-        return Outcome("inconclusive", str(e), text=text)
-    except RecursionError:
-        return Outcome("inconclusive", "model recursion", text=text)
+    except (M.HardError, M.Inconclusive, RecursionError) as e:
+        # The model has no opinion on the results -- the engine is run all the same: whatever the program,
+        # it must not crash (a DriverCrash propagates to the caller, which reports it).
+        drv.run(text, stack_spec(stack), flags=flags, limit=min(limit, 200), steps=min(steps, 300000))
+        why = "model hard error" if isinstance(e, M.HardError) else "model recursion" if isinstance(e, RecursionError) else str(e)
+        return Outcome("inconclusive", why, text=text)
 
     if steps_fn is not None and stream is not None:
         steps = steps_fn(stream)
